@@ -173,6 +173,15 @@ def r3b(fx):
             yield o
 
 
+@rule('C06', 'R4', 3, 'masks are evaluated before format and version information are written (those areas still light)')
+def r4(fx):
+    from . import p02
+    for o in p02.r7(fx):
+        if o.key in ('_encode stage order', 'no redefinition of version/error/mask/matrix after masking',
+                     'mask and matrix are the pair returned by find_and_apply_best_mask'):
+            yield o
+
+
 @rule('C06', 'R5', 10, 'apply_mask flips exactly the encoding region = complement of all function patterns')
 def r5(fx):
     it = Interp(max_steps=200_000_000)
